@@ -53,6 +53,9 @@ var (
 	// ErrUnknownFormat is returned when an attestation file cannot be decoded from any of the
 	// supported forms.
 	ErrUnknownFormat = errors.New("unknown attestation format")
+	// ErrNoMeasurement is returned when no full-length launch measurement is available to derive the
+	// endorsement's location from.
+	ErrNoMeasurement = errors.New("no launch measurement to locate the endorsement with")
 	// ErrEventLogPathEmpty is returned when the event log path in Options is empty.
 	ErrEventLogPathEmpty = errors.New("event log path is empty")
 )
@@ -155,11 +158,17 @@ func (opts *Options) fromEventLog() ([]byte, error) {
 }
 
 func fromSevSnpAttestationProto(at *spb.Attestation) ([]byte, string, error) {
-	if out, err := extractsev.FromAttestation(at); err == nil {
-		return out, "", nil
+	// The object name is only defined for a full-length measurement (a bare certificate table is
+	// decoded with a placeholder measurement), and is needed even when the blob is found locally
+	// in case a fetch is forced.
+	var objectName string
+	if meas := at.GetReport().GetMeasurement(); len(meas) == abi.MeasurementSize {
+		objectName = extractsev.GCETcbObjectName(sev.GCEUefiFamilyID, meas)
 	}
-	meas := at.GetReport().GetMeasurement()
-	return nil, extractsev.GCETcbObjectName(sev.GCEUefiFamilyID, meas), nil
+	if out, err := extractsev.FromAttestation(at); err == nil {
+		return out, objectName, nil
+	}
+	return nil, objectName, nil
 }
 
 func fromTdxAttestationProto(at *tpb.QuoteV4) string {
@@ -305,6 +314,9 @@ func Endorsement(opts *Options) (out []byte, err error) {
 	// Then try the internet.
 	if opts.Getter == nil {
 		internetErr = ErrGetterNil
+	} else if objectName == "" {
+		// Without a measurement there is no object to ask for; never request the bucket itself.
+		internetErr = ErrNoMeasurement
 	} else {
 		endorsement, internetErr = opts.Getter.Get(verify.GCETcbURL(objectName))
 		if internetErr == nil {
